@@ -593,6 +593,7 @@ int main(int argc, char *argv[]) {
       break;
 
     default:
+      VERIF_EVENT("{\"e\":\"Exit\",\"tool\":\"interrogate_module\",\"status\":1}");
       exit(1);
     }
     flag = getopt_long_only(argc, argv, short_options, long_options, nullptr);
@@ -605,6 +606,7 @@ int main(int argc, char *argv[]) {
     nout
       << "\nUsage:\n"
       << "  interrogate-module [opts] libname.in [libname.in ...]\n\n";
+    VERIF_EVENT("{\"e\":\"Exit\",\"tool\":\"interrogate_module\",\"status\":1}");
     exit(1);
   }
 
@@ -631,6 +633,7 @@ int main(int argc, char *argv[]) {
       void *dl = load_dso(DSearchPath(), pathname);
       if (dl == nullptr) {
         nout << "Unable to load: " << load_dso_error() << "\n";
+        VERIF_EVENT("{\"e\":\"Exit\",\"tool\":\"interrogate_module\",\"status\":1}");
         exit(1);
       }
     }
@@ -652,8 +655,10 @@ int main(int argc, char *argv[]) {
     std::ofstream output_code;
 
     if (!output_code_filename.open_write(output_code)) {
+      VERIF_EVENT("{\"e\":\"OpenOutput\",\"ch\":\"oc\",\"ok\":0}");
       nout << "Unable to write to " << output_code_filename << "\n";
     } else {
+      VERIF_EVENT("{\"e\":\"OpenOutput\",\"ch\":\"oc\",\"ok\":1}");
       output_code << output_buffer_str;
 
       if (build_python_native_wrappers) {
@@ -675,13 +680,16 @@ int main(int argc, char *argv[]) {
         write_python_table_native(output_code);
       }
     }
+    VERIF_EVENT("{\"e\":\"WriterDone\",\"ch\":\"oc\",\"fail\":" << (output_code.fail() ? 1 : 0) << "}");
   }
 
   if (interrogate_error_flag()) {
     nout << "Error reading interrogate data.\n";
     output_code_filename.unlink();
+    VERIF_EVENT("{\"e\":\"Exit\",\"tool\":\"interrogate_module\",\"status\":1}");
     exit(1);
   }
 
+  VERIF_EVENT("{\"e\":\"Exit\",\"tool\":\"interrogate_module\",\"status\":0}");
   return (0);
 }
